@@ -331,7 +331,10 @@ Proof.
   destruct (retract_response_states (core_of s) w ids []) as [c' groups] eqn:Er.
   destruct (rrs_SP s w ids (core_of s) [] c' groups) as (S1 & _ & _); [| constructor | intros tg l ir [] | exact Er |].
   - eapply SP_ext; [exact HS | | |]; reflexivity.
-  - apply (SP_pum_clear x0 s' (pum_rr w [])).
-    + eapply send_redirected_SP; [|exact H]. exact S1.
-    + intros w' y. unfold pum_rr. destruct (N.eqb w' w); reflexivity.
+  - apply bind_ok in H. destruct H as (s2 & H & H2).
+    assert (S2 : SP x0 s2 no_pum []).
+    { apply (SP_pum_clear x0 s2 (pum_rr w [])).
+      + eapply send_redirected_SP; [|exact H]. exact S1.
+      + intros w' y. unfold pum_rr. destruct (N.eqb w' w); reflexivity. }
+    destruct (retract_wakes _ _ _ _); inversion H2; subst s'; [apply SP_ask|]; exact S2.
 Qed.
